@@ -149,7 +149,7 @@ Proof. reflexivity. Qed.
    exactly the client's) and in the reply codecs above. *)
 From Coq Require Import String.
 From Verif Require Import Lib.Facts Model.Multi Proofs.TreeFrame Proofs.GenTable Proofs.NamesCompose Gen.Dispatch.
-From Verif Require Import Model.Session.
+From Verif Require Import Model.Session Model.NamesSession.
 Open Scope list_scope.
 
 (* the decorator table the session model runs on is the one regenerated from server.py today *)
